@@ -18,14 +18,19 @@
 from __future__ import annotations
 
 import random
+import signal
 import sys
 import types
 import warnings
 from typing import Any, Optional
 
 
-class StepCap(Exception):
+class StepCap(BaseException):
     pass
+
+
+def _on_alarm(*_a):
+    raise StepCap()
 
 
 def cps(x) -> list[int]:
@@ -342,8 +347,12 @@ def run_case(spec: str, info: dict, scenario: dict, tape: list[int], nexts: dict
             warnings.simplefilter("ignore")
             f = Fandango(spec, use_stdlib=False, use_cache=False)
             f.init_population(population_size=scenario.get("population", 3))
-            gen = f.generate_solutions(None, FuzzingMode.IO)
+            # max_generations bounds the evolutionary fallback of the fuzzer branch (it would search for ever
+            # when no extension of the history satisfies the constraints); the alarm is a last resort
+            gen = f.generate_solutions(scenario.get("max_generations", 24), FuzzingMode.IO)
             try:
+                signal.signal(signal.SIGALRM, _on_alarm)
+                signal.alarm(int(scenario.get("alarm_s", 240)))
                 tree = next(gen)
                 if w.errors:
                     obs["status"] = "failed"
@@ -364,6 +373,7 @@ def run_case(spec: str, info: dict, scenario: dict, tape: list[int], nexts: dict
                         tree = tb.tb_frame.f_locals.get("history_tree")
                     tb = tb.tb_next
             finally:
+                signal.alarm(0)
                 try:
                     gen.close()
                 except Exception:  # noqa
